@@ -21,6 +21,8 @@ type c13Req struct {
 	Call       string `json:"call"`  // sessionless, open, session, close, sdr
 	Fault      string `json:"fault"` // blackhole, slow, garbage, busy, trunc, none
 	From       int    `json:"from"`  // the fault applies from this datagram (0-based) of the call under test
+	Until      int    `json:"until"` // ... up to but excluding this one (0 = for ever)
+	Prior      int    `json:"prior_ms"` // > 0: an earlier successful call on the same connection with this (longer, still live) context
 	TimeoutMs  int    `json:"timeout_ms"`
 	DeadlineMs int    `json:"deadline_ms"` // <= 0: already expired context
 }
@@ -42,6 +44,7 @@ type faultServer struct {
 	n       int  // datagrams seen during the call under test
 	fault   string
 	from    int
+	until   int
 	timeout time.Duration
 	rng     *rand.Rand
 }
@@ -57,7 +60,7 @@ func (f *faultServer) serve() {
 		f.mu.Lock()
 		fault := "none"
 		if f.active {
-			if f.n >= f.from {
+			if f.n >= f.from && (f.until == 0 || f.n < f.until) {
 				fault = f.fault
 			}
 			f.n++
@@ -78,6 +81,16 @@ func (f *faultServer) serve() {
 			if len(reply) > 10 {
 				reply = reply[:10]
 			}
+		case "ackflood":
+			// the peer acknowledges with bare 4-byte RMCP ACKs, repeatedly, and never answers
+			a := addr
+			go func() {
+				for i := 0; i < 40; i++ {
+					time.Sleep(f.timeout / 3)
+					f.conn.WriteToUDP([]byte{0x06, 0x00, 0xff, 0x87}, a)
+				}
+			}()
+			continue
 		case "slow":
 			if reply != nil {
 				r, a := reply, addr
@@ -117,7 +130,7 @@ func runC13(js string) string {
 	}
 	defer uc.Close()
 	to := time.Duration(rq.TimeoutMs) * time.Millisecond
-	fs := &faultServer{conn: uc, b: cfg, fault: rq.Fault, from: rq.From, timeout: to, rng: rand.New(rand.NewSource(1))}
+	fs := &faultServer{conn: uc, b: cfg, fault: rq.Fault, from: rq.From, until: rq.Until, timeout: to, rng: rand.New(rand.NewSource(1))}
 	go fs.serve()
 	c, err := bmc.DialV2(uc.LocalAddr().String(), bmc.WithTimeout(to))
 	if err != nil {
@@ -137,6 +150,18 @@ func runC13(js string) string {
 			res.Setup = "open: " + err.Error()
 			b, _ := json.Marshal(res)
 			return string(b)
+		}
+	}
+	if rq.Prior > 0 {
+		// an earlier call with a longer context that stays live during the call under test
+		pctx, pcancel := context.WithTimeout(context.Background(), time.Duration(rq.Prior)*time.Millisecond)
+		defer pcancel()
+		if sess != nil {
+			if _, err := sess.GetDeviceID(pctx); err != nil {
+				res.Setup = "prior: " + err.Error()
+			}
+		} else if _, err := c.GetSystemGUID(pctx); err != nil {
+			res.Setup = "prior: " + err.Error()
 		}
 	}
 	var ctx context.Context
